@@ -143,13 +143,18 @@ func genC15() *rapid.Generator[prog.Program] {
 						A: rapid.IntRange(0, 7).Draw(t, "a"), B: rapid.IntRange(0, 7).Draw(t, "b"), C: rapid.IntRange(0, 8).Draw(t, "c")})
 				}
 				steps = append(steps, prog.Step{Who: 0, Op: "sync"})
+				// (three syncs: pull the removal, report it as seen, receive a minimum
+				// vector that covers it - one more than before the F65 fix)
 				for w := 1; w < p.Cfg.N; w++ {
 					steps = append(steps, prog.Step{Who: w, Op: "sync"}, prog.Step{Who: w, Op: "sync"})
+				}
+				for w := 1; w < p.Cfg.N; w++ {
+					steps = append(steps, prog.Step{Who: w, Op: "sync"})
 				}
 				for i := rapid.IntRange(1, 4).Draw(t, "undos"); i > 0; i-- {
 					steps = append(steps, prog.Step{Who: 0, Op: rapid.SampledFrom([]string{"undo", "undo", "redo"}).Draw(t, "uop")})
 					if rapid.IntRange(0, 2).Draw(t, "pushnow") == 0 {
-						steps = append(steps, prog.Step{Who: 0, Op: "sync"}, prog.Step{Who: 1, Op: "sync"}, prog.Step{Who: 1, Op: "sync"})
+						steps = append(steps, prog.Step{Who: 0, Op: "sync"}, prog.Step{Who: 1, Op: "sync"}, prog.Step{Who: 1, Op: "sync"}, prog.Step{Who: 1, Op: "sync"})
 					}
 				}
 				steps = append(steps, prog.Step{Who: 0, Op: "sync"}, prog.Step{Who: 0, Op: "round"})
